@@ -34,9 +34,20 @@ fn main() {
         }
         i += 1;
     }
-    if prop != "SHOW" && prop != "PROBE" && prop != "TRANSLATE" { std::fs::create_dir_all(&outdir).unwrap(); }
+    if prop != "SHOW" && prop != "PROBE" && prop != "TRANSLATE" && prop != "IMG" { std::fs::create_dir_all(&outdir).unwrap(); }
     // panics are outcomes, not noise
     if std::env::var("QV_DEBUG").is_err() { common::install_panic_recorder(); }
+    if prop == "IMG" {
+        // developer aid: image of x / y and x ^ y on two float intervals "a,b" "c,d"
+        use qrlew::data_type::{function::Function as _, DataType};
+        let iv = |t: &str| { let v: Vec<f64> = t.split(',').map(|x| x.parse().unwrap()).collect(); DataType::float_interval(v[0], v[1]) };
+        let (a, b) = (iv(&outdir), iv(args.get(3).map(|s| s.as_str()).unwrap_or("0,1")));
+        let st = DataType::structured([("x", a.clone()), ("y", b.clone())]);
+        for (n, e) in [("divide", qrlew::expr::Expr::divide(qrlew::expr::Expr::col("x"), qrlew::expr::Expr::col("y"))), ("pow", qrlew::expr::Expr::pow(qrlew::expr::Expr::col("x"), qrlew::expr::Expr::col("y")))] {
+            println!("{} {:?}", n, e.super_image(&st).map(|t| t.to_string()));
+        }
+        return;
+    }
     if prop == "PROBE" { common::install_panic_recorder(); c17::probe(&outdir, args.get(3).map(|s| s.as_str()).unwrap_or("postgresql")); return; }
     if prop == "TRANSLATE" { c17::show(&outdir, args.get(3).map(|s| s.as_str()).unwrap_or("postgresql")); return; }
     if prop == "SHOW" {
